@@ -156,6 +156,56 @@ pub fn phases(thorough: bool, _seed: u64) -> Vec<Phase> {
         classes: vec![],
         bounds: json!({"operations": "linear (n >= 2), constrained_spline (n >= 3), evaluate / derivative / integral / PiecewiseEvaluator / evaluate_v of the result", "inputs": "every number of knots from 2 to 301 (601 thorough) x 3 ordinate patterns"}),
     });
+    // ---- constructions on data whose intermediate quantities sit in odd relations (slope ratios of 1e16 and more with generic
+    // mantissas, ordinates a few ulps apart, a steep piece between flat ones): internal sanity assertions must not fire
+    v.push(Phase {
+        name: "census-constructions-odd-relations",
+        units: 4,
+        split: 1,
+        body: Box::new(move |unit, cx| {
+            let knots: Vec<Knot> = match unit {
+                0 => {
+                    // flat slope a = k/100 next to a slope R times steeper
+                    let a = (1 + cx.choose(100)) as f64 / 100.0;
+                    let r: f64 = [1e16, 1e17, 1e20, 1e30, -1e17][cx.choose(5)];
+                    let sgn = if r < 0.0 { -1.0 } else { 1.0 };
+                    let r = r.abs();
+                    if cx.flag() { vec![(0.0, 0.0), (1.0, sgn * a), (2.0, sgn * r), (3.0, sgn * 2.0 * r)] } else { vec![(0.0, sgn * 2.0 * r), (1.0, sgn * r), (2.0, sgn * a), (3.0, 0.0)] }
+                        .into_iter().map(|(x, y)| Knot::new(x, y)).collect()
+                }
+                1 => {
+                    // ordinates a few ulps apart (noisy plateau)
+                    let base = [1.0, 1e9, -0.3][cx.choose(3)];
+                    (0..4 + cx.choose(2)).map(|i| Knot::new(i as f64, f64::from_bits((base as f64).to_bits() + [0u64, 1, 5, 2, 9, 3][cx.choose(6)]))).collect()
+                }
+                2 => {
+                    // the same on an uneven, offset grid
+                    let x0 = [0.0, 1e6, -7.5][cx.choose(3)];
+                    let a = (1 + cx.choose(50)) as f64 / 37.0;
+                    [(0.0, 0.0), (0.5, a * 0.5), (0.75, a * 0.5 + 1e15), (3.0, 5e16), (10.0, 5e16 + a)].into_iter().map(|(x, y)| Knot::new(x0 + x, y)).collect()
+                }
+                _ => {
+                    // huge common offset in the ordinates with small steps
+                    let off = [1e9, 5e7, -1e12, 1e15][cx.choose(4)];
+                    let x0 = [0.0, 1e10][cx.choose(2)];
+                    (0..5).map(|i| Knot::new(x0 + i as f64, off + 0.3 * ((i * 7 + cx.choose(3)) % 5) as f64)).collect()
+                }
+            };
+            cx.nontrivial();
+            cx.evals(3);
+            let desc = json!({"knots": knots.iter().map(|k| json!([fj(k.x), fj(k.y)])).collect::<Vec<_>>()});
+            if cx.sampling() {
+                cx.sample(desc.clone());
+            }
+            np("constrained_spline / linear", desc, || {
+                let s = constrained_spline(&knots);
+                let l = linear(&knots);
+                s.evaluate(knots[1].x) + l.evaluate(knots[1].x) + s.derivative().evaluate(knots[2].x)
+            })
+        }),
+        classes: vec![],
+        bounds: json!({"operations": "constrained_spline, linear, evaluate, derivative", "inputs": "4 knots with a flat slope k/100 (k=1..100) next to slopes 1e16..1e30 times steeper, both directions and signs; 4..5 knots whose ordinates are 0..9 ulps apart (at 1, 1e9, -0.3); an uneven offset grid with the same relations; ordinates with a common offset of 5e7..1e15 and steps of 0.3"}),
+    });
     // ---- piecewise operations with nasty non-NaN ends
     let sh = Arc::new(shapes(&nasty_values(), if thorough { 4 } else { 3 }));
     let nsh = sh.len();
@@ -193,6 +243,11 @@ pub fn phases(thorough: bool, _seed: u64) -> Vec<Phase> {
                     acc += PiecewiseEvaluator::new(&sum.segments).evaluate(x);
                 }
                 let _ = f.abs_diff_eq(&f, 0.0) | f.relative_eq(&f, 0.0, 0.0);
+                // comparisons between functions of different lengths, one a prefix of the other, in both orders
+                let short = Piecewise { segments: f.segments[..f.segments.len() - 1].to_vec() };
+                let _ = f.abs_diff_eq(&short, 1e-9) | short.abs_diff_eq(&f, 1e-9) | f.relative_eq(&short, 1e-9, 1e-9) | short.relative_eq(&f, 1e-9, 1e-9) | (f == short) | (short == f);
+                let (pl, ps) = (PolyN(vec![1.0, 2.0, 3.0]), PolyN(vec![1.0, 2.0]));
+                let _ = pl.abs_diff_eq(&ps, 0.5) | ps.abs_diff_eq(&pl, 0.5) | pl.relative_eq(&ps, 0.5, 0.5) | ps.relative_eq(&pl, 0.5, 0.5);
                 // the derived / standard operations too: Clone (clone and clone_from in both length orders), PartialEq, Debug, Default
                 let mut c1 = sum.clone();
                 c1.clone_from(&qa);
